@@ -66,7 +66,7 @@ def slice_gradients(cores, I, y, w, lamb, k):
     return worst
 
 
-def record_als(I, y, Y0, nswp=2, lamb=1e-3, w=None, e=None, e_vld=None, vld=None, cb_at=None, return_Y=False):
+def record_als(I, y, Y0, nswp=2, lamb=1e-3, w=None, e=None, e_vld=None, vld=None, cb_at=None, return_Y=False, user_cb=None, info=None, als_fn=None):
     if not hasattr(A_MOD, '_optimize_core'):
         raise common.Machinery('teneva.als lost the _optimize_core seam')
     I = np.asarray(I, dtype=int)
@@ -77,7 +77,9 @@ def record_als(I, y, Y0, nswp=2, lamb=1e-3, w=None, e=None, e_vld=None, vld=None
     sched = {'k': 0, 'dir': 1}
     state = {'Jsweep': objective(shadow, I, y, w, lamb), 'Yold': None, 'info_ok': True, 'sweeps': 0}
     orig = A_MOD._optimize_core
-    info = {}
+    info = {} if info is None else info
+    # objective values are known to absolute accuracy eps * J(0) at best (J(0) = sum w y^2, the scale of the normal equations)
+    jtol = 1e-12 + 4 * np.finfo(float).eps * float(np.sum((np.ones(len(y)) if w is None else np.asarray(w, dtype=float)) * y * y))
 
     def wrapper(Q, i, y_trn, Yl, Yr, lamb=lamb, w=w, update_sol=None):
         ks = [j for j in range(d) if shadow[j].shape == Q.shape and np.array_equal(shadow[j], Q)]
@@ -95,7 +97,7 @@ def record_als(I, y, Y0, nswp=2, lamb=1e-3, w=None, e=None, e_vld=None, vld=None
         cov_ok = all(np.array_equal(shadow[k0][:, j, :], before[:, j, :]) for j in range(before.shape[1]) if j not in cov)
         opt_ok = slice_gradients(shadow, I, y, w, lamb, k0) <= 1e-7
         ev.append(dict(ev='opt', ks=ks, fresh_l=fresh_l, fresh_r=fresh_r, cov_ok=bool(cov_ok), opt_ok=bool(opt_ok),
-                       desc_ok=bool(Ja <= Jb * (1 + 1e-9) + 1e-12), stop=info.get('stop') or 'none'))
+                       desc_ok=bool(Ja <= Jb * (1 + 1e-9) + jtol), stop=info.get('stop') or 'none'))
         # advance the recorder's own idea of the schedule (only used to disambiguate equal cores)
         if sched['dir'] == 1:
             if sched['k'] == d - 2:
@@ -115,7 +117,7 @@ def record_als(I, y, Y0, nswp=2, lamb=1e-3, w=None, e=None, e_vld=None, vld=None
     def cb(Y, info_, opts):
         state['sweeps'] += 1
         J = objective([np.asarray(G) for G in Y], I, y, w, lamb)
-        desc = J <= state['Jsweep'] * (1 + 1e-9) + 1e-12
+        desc = J <= state['Jsweep'] * (1 + 1e-9) + jtol
         state['Jsweep'] = J
         Yold = opts.get('Yold')
         if Yold is not None:
@@ -129,7 +131,7 @@ def record_als(I, y, Y0, nswp=2, lamb=1e-3, w=None, e=None, e_vld=None, vld=None
                     state['info_ok'] = False
         if info_['nswp'] != state['sweeps']:
             state['info_ok'] = False
-        ret = cb_at is not None and info_['nswp'] == cb_at
+        ret = (cb_at is not None and info_['nswp'] == cb_at) or (user_cb is not None and user_cb(Y, info_, opts) is True)
         ev.append(dict(ev='cb', nswp=int(info_['nswp']), ret=bool(ret), ehit=hit(info_['e'], e), vhit=hit(info_['e_vld'], e_vld), desc_ok=bool(desc)))
         return ret
 
@@ -138,7 +140,7 @@ def record_als(I, y, Y0, nswp=2, lamb=1e-3, w=None, e=None, e_vld=None, vld=None
         kw.update(I_vld=vld[0], y_vld=vld[1], e_vld=e_vld)
     A_MOD._optimize_core = wrapper
     try:
-        Y = teneva.als(I, y, [G.copy() for G in Y0], **kw)
+        Y = (als_fn or teneva.als)(I, y, [G.copy() for G in Y0], **kw)
     finally:
         A_MOD._optimize_core = orig
     shape_ok = F.is_wellformed(Y, [G.shape[1] for G in Y0])
@@ -318,6 +320,26 @@ def run(ctx):
         ok = F.is_wellformed(Y, n) and max(G.shape[2] for G in Y) <= r and info['stop'] in ('nswp', 'e', 'e_vld') and info['nswp'] <= 2
         ctx.check(ok, 'als:adaptive', 'rank-adaptive ALS: ranks %s (cap %d), stop %s' % ([G.shape[2] for G in Y] if isinstance(Y, list) else None, r, info.get('stop')))
     check_als_func(ctx, rng, quick)
+    validate_repo_tests(ctx)
+
+
+def validate_repo_tests(ctx):
+    """code -> spec on the repository's own constant-rank ALS tests (10^4 samples, 50 sweeps, weights 1..10^4)."""
+    from . import main, repo_tests
+    tr, note = repo_tests.record(main.REPO, ['test/test_als.py'])
+    ctx.notes['repo_tests'] = note
+    trs = tr.get('als', [])
+    if not trs:
+        return
+    verdicts, st, gen, runs = traces.validate('Trace_Als', trs, cfg='Trace_Als.cfg', diag_cfg='Trace_Als_diag.cfg')
+    for r_ in runs:
+        ctx.add_tlc(r_, 'trace validation (Trace_Als), %d executions of test/test_als.py' % len(trs))
+    for i, (t, v) in enumerate(zip(trs, verdicts)):
+        ctx.case(key=('repo-test', i), nontrivial=True, sample={'repo_test': i, 'events': len(t['ev']), 'final': t['ev'][-1]})
+        if v['ok']:
+            ctx.trace_ok()
+        else:
+            ctx.violation('als:repo-test-trace', 'execution %d of test/test_als.py is not a behaviour of Als (%s)' % (i, v['why']), case={'trace': t})
 
 
 def check_als_func(ctx, rng, quick):
